@@ -84,7 +84,7 @@ def main():
     seen = set()
     rec, un = [], []
     for f, q, line, sk in rows:
-        if re.fullmatch(r'[0-9 ]*', sk):
+        if re.fullmatch(r'[0-9 ()]*', sk):
             continue
         if (f, q) in MODEL:
             seen.add((f, q))
@@ -94,13 +94,20 @@ def main():
     missing = set(MODEL) - seen
     if missing:
         sys.exit('mapping names functions that no longer exist or have a literal-only skeleton: %r' % sorted(missing))
-    print('Definition recorded : list (string * string * string * string) := [')
-    print(';\n'.join(rec))
-    print('].\n')
-    print('Definition unmodelled_fns : list (string * string) := [')
-    # the comment must come after the separator
-    print('\n'.join(re.sub(r'\)   \(\*', ');   (*', u) if i + 1 < len(un) else u for i, u in enumerate(un)))
-    print('].')
+    out = ['Definition recorded : list (string * string * string * string) := [', ';\n'.join(rec), '].\n',
+           'Definition unmodelled_fns : list (string * string) := [',
+           # the comment must come after the separator
+           '\n'.join(re.sub(r'\)   \(\*', ');   (*', u) if i + 1 < len(un) else u for i, u in enumerate(un)), '].']
+    txt = '\n'.join(out) + '\n'
+    if '--write' in sys.argv:
+        # replace the two tables in coq/Model/Overflow.v in place
+        mp = os.path.join(os.path.dirname(os.path.abspath(__file__)), '..', 'coq', 'Model', 'Overflow.v')
+        m = open(mp).read()
+        a = m.index('Definition recorded :')
+        b = m.index('(* a skeleton made of integer literals')
+        open(mp, 'w').write(m[:a] + txt + '\n' + m[b:])
+    else:
+        print(txt)
 
 
 if __name__ == '__main__':
